@@ -17,6 +17,23 @@ def conversion(what, runner, vals, **kw):
     def fail(msg):
         return False, f"{what} under {runner}: {msg} (vals={vals})"
 
+    if what in ("int(text)", "uint(text)"):
+        import re
+        target, n = what.split("(")[0], kw["n"]
+        text = "".join(chr(vals[f"t_c{i}"]) for i in range(n))
+        kd, r = _run(f"{target}(t)", runner, {"t": ct.StringType(text)})
+        if kd == "escape":
+            return fail(f"{type(r).__name__} escaped for text {text!r}")
+        if re.fullmatch(r"[-+]?0[xX].*", text):
+            return True, "hexadecimal-looking text: the library's extension, nothing asserted"
+        lo, hi = (LO, HI) if target == "int" else (0, UHI)
+        m = re.fullmatch(r"[-+]?[0-9]+" if target == "int" else r"[+]?[0-9]+", text)
+        if m and lo <= int(text) <= hi:
+            if kd != "value" or int(r) != int(text):
+                return fail(f"{target}({text!r}): expected {int(text)}, got {kd} {r!r}")
+        elif kd != "error":
+            return fail(f"{target}({text!r}): not the text of a{'n' if target == 'int' else ' u'}int in range, expected an error, got {r!r}")
+        return True, "ok"
     if what in ("int(double)", "uint(double)"):
         target = what.split("(")[0]
         d = vals["d"]
